@@ -6,7 +6,7 @@ CLAIMS = {
                 'source returns the standard class of the best of the 21 five-card hands; C01_compare: smaller index <=> stronger best hand under the rule book, '
                 'equal index <=> tie. Proof = kernel evaluation (decide +kernel) of every reachable slot of both lookup tables (49,205 + 4,719) against the '
                 'specification, lifted by general lemmas (permutation invariance, flush/no-flush factorisation), plus the proof that the closed-form class '
-                'numbering is the order rank of the rule-book strength over all 7,462 shapes. No input is left to sampling.',
+                'numbering is the order rank of the rule-book strength over all 7,462 shapes. No input is left to sampling. C01_ops: ==, <, cmp on MadeHand (derive list read from the source) decide exactly rule-book wins and ties; rainbow/flush/seven_no_overflow: every u16 accumulator of the two hashes stays below 65536 (the model\'s unbounded Nat is faithful).',
         'note': 'Lean kernel + propext/Classical.choice/Quot.sound; translator (tables, dp_ref rows, flush weights, walk order, threshold read from the source each run); '
                 'the three small control-flow functions of made_hand.rs are hand-modelled and tied by the correspondence (every reachable slot + stratified + all 5040 orders of samples).',
         'design_ref': 'DESIGN.md §6 C01',
@@ -14,7 +14,7 @@ CLAIMS = {
     'C02': {
         'text': 'Theorem C02_refines: for every three-card flop, every list of player ranges (any sizes, empty allowed) and every scope, draining the iterator model '
                 'returns exactly the showdowns of the legal deals of the list comprehension Spec.deals, position by position, each once, nothing else; C02_payload: '
-                'board = flop ++ [turn, river], combos in player order, probability = left-to-right product. Proved by induction over positions x odometer (no bound on range sizes).',
+                'board = flop ++ [turn, river], combos in player order, probability = left-to-right product. Proved by induction over positions x odometer (no bound on range sizes). C02_exactly_once / deals_mem_iff / deals_nodup / unordered_once / deck49_spec: the enumeration holds a showdown for every unordered turn/river pair of the 49 unseen cards (in ace-to-deuce, s-h-d-c order) and every choice of one combo per player with all 5+2n cards distinct, each exactly once, and nothing else.',
         'note': 'Lean kernel + standard axioms; hand-written model of the iterator (Model/Iter.lean) tied by the correspondence with the hash-map iteration order as an input; '
                 'f32 product compared bit for bit; HashSet/HashMap assumed to be finite sets/maps.',
         'design_ref': 'DESIGN.md §6 C02',
@@ -22,7 +22,7 @@ CLAIMS = {
     'C03': {
         'text': 'Theorems C03_none_iff / C03_some / C03_winner_iff: for every board of five distinct cards and every player list (any length), the model of Showdown::new '
                 'returns None exactly on a board collision; otherwise players in input order, each with the evaluation of their own seven cards (= class of their best hand, by C01), '
-                'flagged exactly when no other index is smaller; winner_len = number of flags >= 1. Proved by a loop invariant over the single pass.',
+                'flagged exactly when no other index is smaller; winner_len = number of flags for tables of at most 255 players (the u8 counter; with all cards distinct at most 23 players exist, C03_winner_len), and at least one player of a non-empty table is flagged. Proved by a loop invariant over the single pass. C03_rules: flagged iff no player\'s best five-card hand is stronger by rule-book strength; C03_winner_len: with all cards distinct (hence at most 23 players, by pigeonhole) winner_len succeeds in debug and release and equals the number of flags >= 1; C03_cards_hand: cards() (board first) evaluates to the same hand.',
         'note': 'Lean kernel + standard axioms; hand-written model of showdown.rs tied by the correspondence (tie-heavy boards, collisions at every position); depends on C01.',
         'design_ref': 'DESIGN.md §6 C03',
     },
@@ -30,7 +30,7 @@ CLAIMS = {
         'text': 'C04_scoped (= the refinement theorem at an arbitrary scope [a, b)): the scoped iterator yields exactly the legal deals at positions a <= p < b in order; '
                 'C04_exhausted: any number of further next() calls return None and leave the state unchanged; C04_chain / deals_append: the deals of consecutive scopes '
                 'concatenate to the deals of the enclosing scope (every chain from (0,1) to (48,49) reproduces the full run); C04_rescope: the last scope() call wins; '
-                'C04_default_scope: the unscoped evaluator is the (0,1)-(48,49) one.',
+                'C04_default_scope: the unscoped evaluator is the (0,1)-(48,49) one. C04_scope_ok / C04_rescope_last / C04_scope_many: scope() itself never traps on a valid scope (debug and release) and the last call wins; C04_scoped_sublist: full = pre ++ scoped ++ post on the model\'s drains; C04_chain_model / C04_chain_exactly_once: the drains of consecutively scoped evaluators flatten to the whole drain, every showdown in exactly one piece.',
         'note': 'as C02 (same model, same tie); scope defaults and the river rollover literal are read from the source each run.',
         'design_ref': 'DESIGN.md §6 C04',
     },
@@ -38,7 +38,7 @@ CLAIMS = {
         'text': 'C08_total: for every proper input (ranges of any size, empty allowed) and scope the drain returns normally - no panic arm (index out of range, unwrap) is '
                 'reachable and the loop fuel is never exhausted; C08_empty: an empty range makes the enumeration empty; C08_yield_bound; C08_no_recursion: the source of fn next '
                 'contains no self call (read by the translator each run). PARTIAL: native stack use and allocator failure are runtime facts outside any Lean model; they are '
-                'observed by child-process drains on a 2 MiB thread stack in the debug and the release build on the generated worst cases.',
+                'observed by child-process drains on a 2 MiB thread stack in the debug and the release build on the generated worst cases. C08_u8 / C08_advance_arith: on every reachable state (one step at a time, skip loops included) turn <= 48, river <= 49, turn < river and every counter is below its range\'s length, so no u8/usize arithmetic of the crate overflows in either profile; C08_steps: the exact number of loop iterations.',
         'note': 'as C02; plus: the model counters are unbounded naturals like the usize counters of the repaired code (u8 arithmetic remains only in positions < 256); '
                 'the 2 MiB stack claim is witnessed, not proved.',
         'design_ref': 'DESIGN.md §6 C08',
@@ -47,14 +47,14 @@ CLAIMS = {
         'text': 'C15_interleave: for any family of iterators and any schedule of next() calls, what instance i returns is exactly what it returns alone (frame theorem over the '
                 'model, whose next is a function of its own state); C15_no_shared_state: the translator finds no static / thread_local / interior-mutable / unsafe item in the '
                 'crate on this run. PARTIAL: OS thread schedules are not modelled; Send + Sync is asserted at compile time in the harness; interleaved and threaded runs of the real '
-                'crate are compared with solo runs.',
+                'crate are compared with solo runs. C15_order_insensitive: the one further input of the model, each range\'s map iteration order, only permutes the showdowns within each board position.',
         'note': 'Lean kernel; translator audit; Rust type system; dependencies\' internals outside the model.',
         'design_ref': 'DESIGN.md §6 C15',
     },
     'C12': {
         'text': 'C12_report: for every range (any insert history, any keys) with weights in the domain, a rank pair is reported with weight w iff it is canonical and all of its '
                 '6/4/12 combos are present with that weight; C12_orphans: the leftover view is exactly the range minus the combos of reported rank pairs; C12_disjoint + C12_cover: '
-                'every combo of the range lies in exactly one of the two views with its weight. General proofs (closed form of rank_pairs, probe soundness, classification of combos).',
+                'every combo of the range lies in exactly one of the two views with its weight. General proofs (closed form of rank_pairs, probe soundness, classification of combos). C12_*_contents: the same statements needing only that == is equality on the weights looked up (any such domain, e.g. weights above 1), with hypotheses on the contents rather than the insert history; rankPairs_agree / orphans_agree: the oracle\'s specification views equal the model\'s views.',
         'note': 'Lean kernel + standard axioms; hand-written model of rank_pairs / orphan_card_pairs tied by the correspondence (all 3^6 / 3^4 patterns per rank pair, offsuit patterns, whole ranges); '
                 'assumption: on the weight domain f32 == is equality (NaN and -0.0 excluded); combo lists of a rank pair are read from the source each run.',
         'design_ref': 'DESIGN.md §6 C12',
@@ -63,7 +63,7 @@ CLAIMS = {
         'text': 'C17_canonical: two construction histories with the same lookup print identically (and have the same rank-pair and leftover views) - the formatter reads the range '
                 'only through lookup; C17_runs: for every row and every table the run-length state machine emits exactly one token per maximal run computed by Spec.runs (X+ iff the run '
                 'starts at the top with length >= 2, single iff length 1, X-Y otherwise); C17_runs_maximal: the runs are disjoint, cover every present entry, are weight-constant, and two '
-                'touching runs carry different weights (no two tokens could be merged); C17_order: pocket row, then per high card suited then offsuit row, then leftovers.',
+                'touching runs carry different weights (no two tokens could be merged); C17_order: pocket row, then per high card suited then offsuit row, then leftovers. C17_text: what the text is (pocket row, per high card the suited and the offsuit row, leftovers; each row the run tokens of the true rank-pair table); C17_no_mergeable_neighbours: consecutive tokens of a row are separated by an unreported rank pair or carry different weights - with no reflexivity assumed (a NaN-weighted rank pair is never reported).',
         'note': 'Lean kernel + standard axioms; hand-written model of Display for HandRange tied by the correspondence (eight construction histories incl. parse vs collect vs unsized iterators; exact text compared '
                 'incl. f32 text); that the real formatter never iterates the hash map for output order is what the correspondence checks.',
         'design_ref': 'DESIGN.md §6 C17',
@@ -71,7 +71,7 @@ CLAIMS = {
     'C16': {
         'text': 'C16_tiles: for EVERY worker count n >= 1 and EVERY behaviour of the f32 pipeline (an arbitrary function F, universally quantified), the scope list is computed without '
                 'overflow, has n scopes, starts at (0,1), ends at (48,49), is chained, never steps backwards and names only valid positions; C16_sum: the legal deals of the scopes, '
-                'scope after scope, are exactly the deals of the full enumeration (with C04_scoped each worker yields exactly its piece). Nothing about IEEE arithmetic is assumed.',
+                'scope after scope, are exactly the deals of the full enumeration (with C04_scoped each worker yields exactly its piece). Nothing about IEEE arithmetic is assumed. C16_counts / C16_tally / C16_model_counts: every integer counter accumulated per scope adds up to the counter of the full run (also on the model iterator\'s drains); n = 0 enumerates nothing (C16_zero).',
         'note': 'Lean kernel + standard axioms; the integer part of calculate_scopes is hand-modelled and tied by the correspondence for every n in 1..4096 (quick) with the native Float32 pipeline, '
                 'plus end-to-end sums on the real evaluator.',
         'design_ref': 'DESIGN.md §6 C16',
@@ -89,7 +89,7 @@ CLAIMS = {
     'C10': {
         'text': 'C10_combo: whatever string is parsed as a range, every entry is a combo of two different valid cards; C10_weight(_token): every weight is in the weight domain given only that texts '
                 'of the weight grammar parse into it, that 1 is in it and that the empty text is not a number; C10_grammar: the grammar admits exactly 0, 0.d+, 1, 1.0+; C10_prob: products from 1 stay in '
-                'any domain closed under the product; C10_cards: no enumerated showdown holds a card twice (C02_payload).',
+                'any domain closed under the product; C10_cards: no enumerated showdown holds a card twice (C02_payload). C10_showdown: every showdown the model iterator emits on parsed ranges (any flop, any valid scope) has a probability in the domain and no card twice.',
         'note': 'Lean kernel + standard axioms; assumptions about f32 (named hypotheses, validated by the harness): f32::from_str maps decimals of the grammar into [0,1], "" is not a number, binary32 '
                 'multiplication maps [0,1]x[0,1] into [0,1]; model tied by the correspondence (2,222 weight literals, all 52x52 card-pair tokens, probabilities of enumerated showdowns).',
         'design_ref': 'DESIGN.md §6 C10',
@@ -98,14 +98,14 @@ CLAIMS = {
         'text': 'C11_suits: for every suit permutation, every three-card flop and every list of ranges, every integer tally (player p flagged in a showdown with exactly k winners) of the relabelled input '
                 'equals that of the input; C11_players: exchanging two neighbouring players exchanges their tallies (neighbour exchanges generate all reorderings); C11_pot: in every deal the flagged players '
                 'number k >= 1, so k shares of 1/k make one pot; C11_model_flags: the iterator model\'s showdown of a legal deal carries exactly the specification\'s hands and winner flags (via C02, C03, C01). '
-                'Proved over the specification\'s deals by a permutation-invariant sum over unordered turn/river pairs.',
+                'Proved over the specification\'s deals by a permutation-invariant sum over unordered turn/river pairs. C11_suits_model / tally_perm_entries / tally_swap_cards: invariance for the relabelled input as the crate builds it (pairs re-normalised, map order arbitrary); C11_players_perm: every reordering (neighbour swaps generate all permutations, perm_swaps); C11_drain_tally / C11_suits_end_to_end / C11_players_end_to_end: the same for tallies counted on the model iterator\'s output; C11_pot_sd: the winners\' shares 1/k add up to exactly 1 (over Q).',
         'note': 'as C02/C03/C01 (same models and ties); the correspondence compares tallies of the real crate across all 24 suit permutations and player orders and with the model\'s tallies.',
         'design_ref': 'DESIGN.md §6 C11',
     },
     'C05': {
         'text': 'C05_token: every well-formed token (all shapes: RR, RR+, RR-SS, XYs/o in either order, XYs/o+, XYs/o-XZs/o, two different cards in either order), with or without a weight of the grammar, '
                 'parses and expands to exactly the list of combos Spec.denote gives (standard notation, written independently of the crate), each once, each with the token\'s weight (1 when omitted); '
-                'C05_list: for any list of such tokens joined by commas with spaces anywhere, lookup of every combo is the weight of the LAST token denoting it; C05_empty: the empty / all-space string is the empty range. C05_notation_unambiguous: well-formed tokens with equal text are equal (the standard meaning of a text is well defined); C05_oracle_reader_complete: the reader by which the correspondence oracle attaches Spec.denote to a request recognises every well-formed token.',
+                'C05_list: for any list of such tokens joined by commas with spaces anywhere, lookup of every combo is the weight of the LAST token denoting it; C05_empty: the empty / all-space string is the empty range. C05_notation_unambiguous: well-formed tokens with equal text are equal (the standard meaning of a text is well defined); C05_oracle_reader_complete: the reader by which the correspondence oracle attaches Spec.denote to a request recognises every well-formed token. C05_token_weight / C05_list_weight: the weight clause without a defaulting read, under the named hypothesis that every text of the weight grammar is a number (validated each run).',
         'note': 'Lean kernel + standard axioms; assumption: "" is not a number for f32::from_str (named hypothesis); hand-written model of the parser tied by the correspondence (all 3,809 well-formed shapes x weight literals, '
                 'expansion order compared with the model, expansion set with Spec.denote); regex crate modelled by a derivative semantics of the pattern subset used; the recognisers of the parser model are proved equal to that semantics of the literals read from the source on every run (C09_regex_semantics).',
         'design_ref': 'DESIGN.md §6 C05',
@@ -113,7 +113,7 @@ CLAIMS = {
     'C06': {
         'text': 'C06_range: for every range whose combos are pairs of distinct cards with weights in the domain, showRange succeeds and parseRange of that text yields a range with the same lookup for '
                 'every combo - however the combos group into complete rank pairs, runs of adjacent rank pairs with equal weight, or leftovers; C06_token: the text of every token satisfying the parser\'s '
-                'own well-formedness conditions (every emitted and every parsed token) parses back to the identical token. Proved from the run/cover theorems (C17, C12) and the closed forms of the seven parser branches.',
+                'own well-formedness conditions (every emitted and every parsed token) parses back to the identical token. Proved from the run/cover theorems (C17, C12) and the closed forms of the seven parser branches. C06_range_contents: hypotheses on the contents only (overwritten inserts are irrelevant); C06_collect: ranges built by the public FromIterator as repaired by D11 (-0.0 stored as +0.0) satisfy the hypothesis.',
         'note': 'Lean kernel + standard axioms; the f32 text assumptions are the named hypotheses of WTextOk (== is equality on the domain, a weight other than 1 prints in the weight grammar, print-then-parse is the '
                 'identity, "" is not a number) - validated by the harness, not proved; domain = bit patterns 0x00000000..=0x3F800000 (-0.0, NaN excluded); model tied by the correspondence (the crate\'s own reparse == original on every generated range).',
         'design_ref': 'DESIGN.md §6 C06',
@@ -126,13 +126,13 @@ CLAIMS = {
     },
     'C13': {
         'text': 'All statements are finite and over data regenerated from the Rust source; each is a kernel evaluation (decide) lifted to the quantified form, or a '
-                'structural proof (two-character texts). The correspondence is exhaustive over the same finite domains.',
+                'structural proof (two-character texts). The correspondence is exhaustive over the same finite domains. rank_range_total / suit_range_total: every ordered endpoint pair gives the contiguous run or the slice panic (reversed endpoints included); card_text_spec / parse_card_spec: all 52 texts are the standard ones and exactly they are accepted, against an independent vocabulary (Spec/Cards).',
         'note': 'Lean kernel; translator; hand-written semantics of match / if-chain / slice in Model/Card.lean validated by exhaustive correspondence.',
         'design_ref': 'DESIGN.md §6 C13',
     },
     'C14': {
         'text': 'General proof (strict total order on cards => canonical form, text round trip) over the model whose comparison operator and operand order are read '
-                'from the source; exhaustive correspondence over all 52x51 ordered pairs including FxHasher hash equality.',
+                'from the source; exhaustive correspondence over all 52x51 ordered pairs including FxHasher hash equality. range_holds_each_combo_once: inserting a combo under either card order leaves exactly one entry for it, with the later weight.',
         'note': 'Lean kernel; translator; derived Eq/Hash being functions of the stored fields.',
         'design_ref': 'DESIGN.md §6 C14',
     },
